@@ -15,10 +15,11 @@ CONSTANTS
   TreeStart = TRUE
   Ends = {0, 2, 3, 4, 7}
   Aheads = {0, 2}
+  Lags = {0, 2, 3}
   MaxFaults = 2
   FaultBudgets = {0, 2}
   MaxRestarts = 1
 INIT SimInit
 NEXT SimNext
-INVARIANTS Export Mirror Bounded Gate NoConflict QuotaRetried Complete PosCovered VerbatimBad
+INVARIANTS Export Mirror Bounded Gate NoConflict QuotaRetried Complete PosCovered NoRepeat VerbatimBad
 CHECK_DEADLOCK FALSE
